@@ -25,6 +25,7 @@ class CbmcOb(Ob):
         s.backends = tuple(backends); s.unwind = unwind; s.timeout = timeout; s.extra = tuple(extra)
         s.replay_link = tuple(replay_link); s.replay_files = replay_files; s.replay_defines = tuple(replay_defines)
         s.custom_replay = custom_replay; s.witness = witness; s.bounds = bounds; s.engine = engine; s.mode = mode; s.partial_loops = partial_loops
+        s.fallback = None   # obligation in a more precise mode, decided when a counterexample of this (abstracted) one does not reproduce natively
 
 
 class SymOb(Ob):
@@ -90,6 +91,13 @@ class Check:
                     res['verdict'] = 'error'; res['detail'] = 'unwinding assertion failed: --unwind %s too small' % ob.unwind
                 else:
                     res.update(s.replay_cbmc(ob, r))
+                    if res['verdict'] == 'unconfirmed' and ob.fallback is not None:
+                        # counterexample of the uninterpreted-function abstraction is not a behaviour of the real code: decide the precise encoding instead
+                        res2 = s.run_cbmc_ob(ob.fallback)
+                        res2['refined_from'] = '%s counterexample did not reproduce natively; re-decided in mode %s' % (ob.mode, ob.fallback.mode)
+                        res2['time'] = round((res.get('time') or 0) + (res2.get('time') or 0), 2)
+                        ob.mode = ob.fallback.mode
+                        return res2
             else:
                 res['detail'] = (r.get('tail') or '')[-400:]
             return res
